@@ -351,20 +351,20 @@ theorem getRawWith_reach {o : Opts} (keyOf : Bytes → Bytes → Bytes) (build :
   | some r => simpa only [getRawWith, hlk] using hl
   | none => simpa only [getRawWith, hlk] using Reach.store s (keyOf op q) (build s q op) hl
 
-theorem getNorm_reach {o : Opts} (norm : S → Bytes → Bytes → NormOut A) (errRes buildN : S → Bytes → Bytes → R)
+theorem getNorm_reach {o : Opts} (fb : KeyShape) (norm : S → Bytes → Bytes → NormOut A) (errRes buildN : S → Bytes → Bytes → R)
     (failed : R → Bool) {c : Cache S R} (s : S) (q op : Bytes) (h : Reach o c) :
-    Reach o (getNorm norm errRes buildN failed c s q op).1 := by
+    Reach o (getNorm fb norm errRes buildN failed c s q op).1 := by
   unfold getNorm
   cases norm s q op with
   | parseErr => exact h
   | normErr => exact h
   | ok nk sy =>
-    have hl := Reach.lookup s (normCacheKey op q nk) h
-    rcases hlk : lookup c s (normCacheKey op q nk) with ⟨c', r⟩
+    have hl := Reach.lookup s (normCacheKey fb op q nk) h
+    rcases hlk : lookup c s (normCacheKey fb op q nk) with ⟨c', r⟩
     rw [hlk] at hl
     cases r with
     | some r => simpa only [hlk] using hl
-    | none => simpa only [hlk] using Reach.store s (normCacheKey op q nk) (buildN s q op) hl
+    | none => simpa only [hlk] using Reach.store s (normCacheKey fb op q nk) (buildN s q op) hl
 
 
 theorem getRawWith_spec {keyOf : Bytes → Bytes → Bytes} {build : S → Bytes → Bytes → R}
@@ -465,33 +465,33 @@ theorem mem_keys_lookup {c : Cache S R} {s : S} {k k' : Bytes} (h : k' ∈ keysO
 
 
 /-- entries of the normalising cache are honest w.r.t. `buildN` -/
-def InvN (norm : S → Bytes → Bytes → NormOut A) (buildN : S → Bytes → Bytes → R) (c : Cache S R) : Prop :=
-  ∀ e ∈ c.items, ∃ q op nk sy, norm e.schema q op = .ok nk sy ∧ e.key = normCacheKey op q nk ∧ e.res = buildN e.schema q op
+def InvN (fb : KeyShape) (norm : S → Bytes → Bytes → NormOut A) (buildN : S → Bytes → Bytes → R) (c : Cache S R) : Prop :=
+  ∀ e ∈ c.items, ∃ q op nk sy, norm e.schema q op = .ok nk sy ∧ e.key = normCacheKey fb op q nk ∧ e.res = buildN e.schema q op
 
 
 /-! ## the normalising cache up to an equivalence of results (used with "documents equal up to source locations") -/
 
 /-- every entry is `E`-equivalent to what its key's request builds -/
-def InvE (E : R → R → Prop) (norm : S → Bytes → Bytes → NormOut A) (buildN : S → Bytes → Bytes → R) (c : Cache S R) : Prop :=
-  ∀ e ∈ c.items, ∃ q op nk sy, norm e.schema q op = .ok nk sy ∧ e.key = normCacheKey op q nk ∧ E e.res (buildN e.schema q op)
+def InvE (fb : KeyShape) (E : R → R → Prop) (norm : S → Bytes → Bytes → NormOut A) (buildN : S → Bytes → Bytes → R) (c : Cache S R) : Prop :=
+  ∀ e ∈ c.items, ∃ q op nk sy, norm e.schema q op = .ok nk sy ∧ e.key = normCacheKey fb op q nk ∧ E e.res (buildN e.schema q op)
 
 /-- **the assumption on the cache key**, as a named predicate: two requests to one schema that get the same cache key
 build `E`-equivalent results. For the key as coded (hex of the 64-bit FNV-1a hash of the structural fingerprint, and
 `"raw:" + FNV(query)` when normalisation is not applicable) this is NOT provable — it fails on constructed collisions
 (D-06k) — and is assumed; for a key that is the printed normalised document it follows from C08's `parse_print`. -/
-def KeyFaithful (E : R → R → Prop) (norm : S → Bytes → Bytes → NormOut A) (buildN : S → Bytes → Bytes → R) : Prop :=
+def KeyFaithful (fb : KeyShape) (E : R → R → Prop) (norm : S → Bytes → Bytes → NormOut A) (buildN : S → Bytes → Bytes → R) : Prop :=
   ∀ s q op q' op' nk sy nk' sy', norm s q op = .ok nk sy → norm s q' op' = .ok nk' sy' →
-    normCacheKey op q nk = normCacheKey op' q' nk' → E (buildN s q op) (buildN s q' op')
+    normCacheKey fb op q nk = normCacheKey fb op' q' nk' → E (buildN s q op) (buildN s q' op')
 
 /-- what a history's outputs must satisfy: every `Get` that went through the cache (hit or miss) returned a result
 `E`-equivalent to what its own request builds -/
-def OutsFaithful (E : R → R → Prop) (buildN : S → Bytes → Bytes → R) :
+def OutsFaithful (fb : KeyShape) (E : R → R → Prop) (buildN : S → Bytes → Bytes → R) :
     List (Op S) → List (Option (NormResult R A × Outcome)) → Prop
   | [], [] => True
   | .get s q op :: ops, some (r, oc) :: outs =>
-    ((oc = .hit ∨ oc = .miss) → E r.res (buildN s q op)) ∧ OutsFaithful E buildN ops outs
-  | .reset :: ops, _ :: outs => OutsFaithful E buildN ops outs
-  | .get _ _ _ :: ops, none :: outs => OutsFaithful E buildN ops outs
+    ((oc = .hit ∨ oc = .miss) → E r.res (buildN s q op)) ∧ OutsFaithful fb E buildN ops outs
+  | .reset :: ops, _ :: outs => OutsFaithful fb E buildN ops outs
+  | .get _ _ _ :: ops, none :: outs => OutsFaithful fb E buildN ops outs
   | _, _ => False
 
 end GqlModel.PlanCache
